@@ -1,5 +1,5 @@
 """C07: graceful shutdown finishes in-flight requests and stops accepting (level: other)."""
-from core import norm, L_call, L_variant, CallSite, sig, assigns_to_return, arms, closure_arg_of
+from core import norm, L_call, L_variant, CallSite, sig, assigns_to_return, arms, closure_arg_of, L_poll, field_where
 from mir import op_place, place_str
 import pool2
 
@@ -36,10 +36,47 @@ def polls_of_field(f, field):
     return out
 
 
+def roles(facts):
+    """Fields of GracefulShutdown / GracefulConnectionDriver by role.  Roles are read off the declared types and the wiring in
+    GracefulShutdown::new (which sender shares its close() pair with the receiver that is cloned into connections), so that
+    renaming a private field changes nothing."""
+    import re
+    GS, GD = "server::GracefulShutdown", "server::conn::drivers::GracefulConnectionDriver"
+    r = {}
+    sig = field_where(facts, GS, lambda t: re.match(r"^[A-Z][A-Za-z0-9]*$", t) is not None)
+    rx = field_where(facts, GS, lambda t: t.endswith("CloseReciever"))
+    fin = field_where(facts, GS, lambda t: t.endswith("CloseFuture"))
+    txs = field_where(facts, GS, lambda t: t.endswith("CloseSender"))
+    if len(sig) != 1 or len(rx) != 1 or len(fin) != 1 or len(txs) != 2:
+        raise KeyError("GracefulShutdown fields by type: signal=%s receiver=%s all-closed=%s senders=%s" % (sig, rx, fin, txs))
+    r["signal"], r["rx"], r["fin"] = sig[0], rx[0], fin[0]
+    g = facts.unit(facts.fn("server::GracefulShutdown::new"))
+    pair = {}
+    for (b, i, s) in g.aggregates(GS):
+        ops = dict(zip(s["r"]["fields"], s["r"]["ops"]))
+        site = lambda o: {x.site.bb for x in g.roots(o) if x.kind == "call" and x.site.is_("server::close")}
+        for t in txs:
+            if site(ops[t]) and site(ops[t]) == site(ops[rx[0]]):
+                pair["shutdown_tx"] = t
+            elif site(ops[t]) and site(ops[t]) == site(ops[fin[0]]):
+                pair["conn_tx"] = t
+    if set(pair) != {"shutdown_tx", "conn_tx"}:
+        raise KeyError("GracefulShutdown::new wiring of the two close() pairs not recognised: %s" % pair)
+    r.update(pair)
+    dc = field_where(facts, GD, lambda t: "ConnectionDriver<" in t)
+    ds = field_where(facts, GD, lambda t: "Fuse<" in t)
+    df = field_where(facts, GD, lambda t: t.endswith("CloseSender"))
+    if len(dc) != 1 or len(ds) != 1 or len(df) != 1:
+        raise KeyError("GracefulConnectionDriver fields by type: conn=%s shutdown=%s finished=%s" % (dc, ds, df))
+    r["d_conn"], r["d_shutdown"], r["d_finished"] = dc[0], ds[0], df[0]
+    return r
+
+
 def C07_1_2(ctx, facts):
     f = facts.unit(facts.method("server::GracefulShutdown", "Future", "poll"))
     ctx.touched(f)
-    sig_polls = polls_of_field(f, "signal")
+    R = roles(facts)
+    sig_polls = polls_of_field(f, R["signal"])
     once = f.calls("server::Serving::poll_once")
     execs = [c for c in f.calls() if norm(c.decl or c.name).endswith("Executor::execute")]
     ctx.floor("GracefulShutdown::poll|signal-poll", len(sig_polls), 1, "polls of the shutdown signal")
@@ -47,11 +84,8 @@ def C07_1_2(ctx, facts):
     ctx.floor("GracefulShutdown::poll|spawn", len(execs), 1, "executor.execute calls")
     sp = {c.bb for c in sig_polls}
 
-    def sig_pending(lab):
-        return lab.kind == "variant" and lab.variants == {"Pending"} and f.call_defining(lab.place["l"]) is not None and f.call_defining(lab.place["l"]).bb in sp
-
-    def sig_ready(lab):
-        return lab.kind == "variant" and lab.variants == {"Ready"} and f.call_defining(lab.place["l"]) is not None and f.call_defining(lab.place["l"]).bb in sp
+    sig_pending = L_poll(f, False, sp)
+    sig_ready = L_poll(f, True, sp)
 
     good = set(f.edges_where(sig_pending))
     for c in sig_polls:
@@ -71,7 +105,7 @@ def C07_1_2(ctx, facts):
                   "two accept steps can follow each other without re-checking the signal", c.where(), f.path_desc(again))
     redges = f.edges_where(sig_ready)
     ctx.floor("GracefulShutdown::poll|ready-edge", len(redges), 1, "Ready edge of the signal")
-    sends = [c for c in f.calls("server::CloseSender::send") if any(r.kind == "arg" and r.desc.endswith(".shutdown") for r in f.roots(c.args[0]))]
+    sends = [c for c in f.calls("server::CloseSender::send") if any(r.kind == "arg" and r.desc.endswith("." + R["shutdown_tx"]) for r in f.roots(c.args[0]))]
     ctx.floor("GracefulShutdown::poll|shutdown-send", len(sends), 1, "shutdown.send()")
     for (a, b) in redges:
         ok, w = f.must_pass(b, f.returns, {c.bb for c in sends})
@@ -95,6 +129,7 @@ def C07_1_2(ctx, facts):
 
 
 def C07_3(ctx, facts):
+    R = roles(facts)
     f = facts.unit(facts.method("server::GracefulShutdown", "Future", "poll"))
     news = f.calls("server::conn::drivers::GracefulConnectionDriver::new")
     execs = [c for c in f.calls() if norm(c.decl or c.name).endswith("Executor::execute")]
@@ -109,9 +144,9 @@ def C07_3(ctx, facts):
         r2 = f.roots(c.args[2])
         ctx.check(any(r.kind == "call" and r.site.is_("server::Serving::poll_once") for r in r0), "GracefulConnectionDriver::new|conn", "the driver owns the accepted connection",
                   "conn roots %s" % sorted(map(repr, sig(r0))), c.where())
-        ctx.check(any(r.kind == "arg" and r.desc.endswith(".channel") for r in r1) and not any(r.kind == "arg" and r.desc.endswith(".connection") for r in r1),
+        ctx.check(any(r.kind == "arg" and r.desc.endswith("." + R["rx"]) for r in r1) and not any(r.kind == "arg" and r.desc.endswith("." + R["conn_tx"]) for r in r1),
                   "GracefulConnectionDriver::new|shutdown-rx", "its shutdown receiver is a clone of the server's `channel`", "shutdown roots %s" % sorted(map(repr, sig(r1))), c.where())
-        ctx.check(any(r.kind == "arg" and r.desc.endswith(".connection") for r in r2) and not any(r.kind == "arg" and r.desc.endswith(".shutdown") for r in r2),
+        ctx.check(any(r.kind == "arg" and r.desc.endswith("." + R["conn_tx"]) for r in r2) and not any(r.kind == "arg" and r.desc.endswith("." + R["shutdown_tx"]) for r in r2),
                   "GracefulConnectionDriver::new|finished-tx", "its finished sender is a clone of the server's `connection` token", "finished roots %s" % sorted(map(repr, sig(r2))), c.where())
     g = facts.unit(facts.fn("server::GracefulShutdown::new"))
     ctx.touched(g)
@@ -122,11 +157,11 @@ def C07_3(ctx, facts):
         def close_site(o):
             return {x.site.bb for x in g.roots(o) if x.kind == "call" and x.site.is_("server::close")}
 
-        cs = {k: close_site(ops[k]) for k in ("channel", "shutdown", "finished", "connection")}
-        ok = len(cs["channel"]) == 1 and cs["channel"] == cs["shutdown"] and len(cs["finished"]) == 1 and cs["finished"] == cs["connection"] and cs["channel"] != cs["finished"]
+        cs = {k: close_site(ops[R[k]]) for k in ("rx", "shutdown_tx", "fin", "conn_tx")}
+        ok = len(cs["rx"]) == 1 and cs["rx"] == cs["shutdown_tx"] and len(cs["fin"]) == 1 and cs["fin"] == cs["conn_tx"] and cs["rx"] != cs["fin"]
         ctx.check(ok, "GracefulShutdown::new|pairs", "channel/shutdown come from one close() pair and finished/connection from another",
                   "close() pairing is %s" % cs, g.where(b))
-        ctx.check(any(x.kind == "arg" and x.desc == "signal" for x in g.roots(ops["signal"])), "GracefulShutdown::new|signal", "the signal future is the caller's", "signal roots differ", g.where(b))
+        ctx.check(any(x.kind == "arg" for x in g.roots(ops[R["signal"]])), "GracefulShutdown::new|signal", "the signal future is the caller's", "signal roots differ", g.where(b))
     cl = facts.unit(facts.fn("server::close"))
     rr = cl.roots({"l": 0, "p": []})
     chans = {x.site.bb for x in rr if x.kind == "call" and x.site.is_("tokio::sync::watch::channel")}
@@ -136,12 +171,13 @@ def C07_3(ctx, facts):
 def C07_4(ctx, facts):
     adt = facts.adt("server::conn::drivers::GracefulConnectionDriver")
     ty = {fl["name"]: fl["ty"] for fl in adt["variants"][0]["fields"]} if adt else {}
-    ctx.check(ty.get("shutdown", "").startswith("futures_util::future::Fuse<") or "::Fuse<" in ty.get("shutdown", ""), "GracefulConnectionDriver|fused",
-              "the driver's shutdown future is fused (graceful_shutdown is requested once; afterwards it is never Ready again)", "shutdown field has type %s" % ty.get("shutdown"))
+    R = roles(facts)
+    ctx.check("Fuse<" in ty.get(R["d_shutdown"], ""), "GracefulConnectionDriver|fused",
+              "the driver's shutdown future is fused (graceful_shutdown is requested once; afterwards it is never Ready again)", "shutdown field has type %s" % ty.get(R["d_shutdown"]))
     f = facts.unit(facts.method("server::conn::drivers::GracefulConnectionDriver", "Future", "poll"))
     ctx.touched(f)
-    cp = polls_of_field(f, "conn")
-    shp = polls_of_field(f, "shutdown")
+    cp = polls_of_field(f, R["d_conn"])
+    shp = polls_of_field(f, R["d_shutdown"])
     gs = [c for c in f.calls() if norm(c.decl or c.name).endswith("::graceful_shutdown")]
     fin = [c for c in f.calls("server::CloseSender::send")]
     ctx.floor("GracefulConnectionDriver::poll|conn-poll", len(cp), 1, "polls of the connection")
@@ -149,18 +185,18 @@ def C07_4(ctx, facts):
     ctx.floor("GracefulConnectionDriver::poll|graceful_shutdown", len(gs), 1, "graceful_shutdown calls")
     ctx.floor("GracefulConnectionDriver::poll|finished-send", len(fin), 1, "finished.send()")
     for c in gs:
-        ok, w = f.guarded(c.bb, lambda lab: lab.kind == "variant" and lab.variants == {"Ready"} and f.call_defining(lab.place["l"]) is not None and f.call_defining(lab.place["l"]).bb in {x.bb for x in shp})
+        ok, w = f.guarded(c.bb, L_poll(f, True, {x.bb for x in shp}))
         ctx.check(ok, "GracefulConnectionDriver::poll|shutdown-on-ready", "graceful_shutdown() is called only on the Ready edge of the shutdown future",
                   "graceful_shutdown() reachable without the shutdown signal", c.where(), f.path_desc(w))
         p = f.path(c.bb, f.returns, avoid_blocks={x.bb for x in cp})
         ctx.check(p is None, "GracefulConnectionDriver::poll|keeps-polling", "after requesting graceful shutdown the driver polls the connection again before any return",
                   "the driver can return right after graceful_shutdown() without polling the connection", c.where(), f.path_desc(p))
         rr = f.roots(c.args[0])
-        ctx.check(any(r.kind == "arg" and r.desc.endswith(".conn") for r in rr), "GracefulConnectionDriver::poll|shutdown-own-conn", "graceful_shutdown() is applied to the driver's own connection",
+        ctx.check(any(r.kind == "arg" and R["d_conn"] in r.desc.split(".") for r in rr), "GracefulConnectionDriver::poll|shutdown-own-conn", "graceful_shutdown() is applied to the driver's own connection",
                   "graceful_shutdown receiver roots %s" % sorted(map(repr, sig(rr))), c.where())
     readys = sorted({b for (b, i, s) in f.aggregates("Poll", "Ready")})
     ctx.floor("GracefulConnectionDriver::poll|ready", len(readys), 1, "Ready returns")
-    conn_ready = lambda lab: lab.kind == "variant" and lab.variants == {"Ready"} and f.call_defining(lab.place["l"]) is not None and f.call_defining(lab.place["l"]).bb in {x.bb for x in cp}
+    conn_ready = L_poll(f, True, {x.bb for x in cp})
     for b in readys:
         ok, w = f.guarded(b, conn_ready)
         ctx.check(ok, "GracefulConnectionDriver::poll|ready-only-when-conn-done", "the driver completes only when the connection has completed",
@@ -173,11 +209,11 @@ def C07_4(ctx, facts):
     for (b, i, s) in n.aggregates("server::conn::drivers::GracefulConnectionDriver"):
         r = s["r"]
         ops = dict(zip(r["fields"], r["ops"]))
-        rs = n.roots(ops["shutdown"])
-        ctx.check(any(x.kind == "arg" and x.desc == "shutdown" for x in rs) and any(x.kind == "call" and norm(x.site.name).endswith("::fuse") for x in rs),
+        rs = n.roots(ops[R["d_shutdown"]])
+        ctx.check(any(x.kind == "arg" and "Close" in n.locals[x.index] for x in rs) and any(x.kind == "call" and norm(x.site.name).endswith("::fuse") for x in rs),
                   "GracefulConnectionDriver::new|fuse", "shutdown = shutdown.into_future().fuse()", "shutdown roots %s" % sorted(map(repr, sig(rs))), n.where(b))
-        ctx.check(any(x.kind == "arg" and x.desc == "finished" for x in n.roots(ops["finished"])), "GracefulConnectionDriver::new|finished", "finished is the given sender", "finished differs", n.where(b))
-        ctx.check(any(x.kind == "arg" and x.desc == "conn" for x in n.roots(ops["conn"])), "GracefulConnectionDriver::new|conn", "conn wraps the given connection", "conn differs", n.where(b))
+        ctx.check(any(x.kind == "arg" and n.locals[x.index].endswith("CloseSender") for x in n.roots(ops[R["d_finished"]])), "GracefulConnectionDriver::new|finished", "finished is the given sender", "finished differs", n.where(b))
+        ctx.check(any(x.kind == "arg" for x in n.roots(ops[R["d_conn"]])), "GracefulConnectionDriver::new|conn", "conn wraps the given connection", "conn differs", n.where(b))
 
 
 def C07_5(ctx, facts):
